@@ -47,7 +47,7 @@ pub mod logger_handle {
     //@   ret r
     //@   props C05
     //@   attr #[verifier::allow(undeclared_external_trait)]
-    //@   rule R3 1
+    //@   rule R3 *
     //@   req[parse_and_push.pre.perm] forall|s: LogSpecification| #[trigger] LoggerHandle::set_ok(s) <==> (parse_result(as_str_view::<S>(new_spec)) is Ok && s == parse_result(as_str_view::<S>(new_spec))->Ok_0)
     //@   ens[parse_and_push.post.ok] parse_result(as_str_view::<S>(new_spec)) is Ok ==> r is Ok && final(self).stack() == old(self).stack().push(old(self).active())
     //@       && final(self).active() == parse_result(as_str_view::<S>(new_spec))->Ok_0
@@ -66,4 +66,6 @@ pub mod logger_handle {
     }
 }
 }
+// plain-Rust glue outside verus! (never executed, not verified): the shim has the real type's Display so that code using it still parses
+impl std::fmt::Display for log_specification::LogSpecification { fn fmt(&self, _f: &mut std::fmt::Formatter) -> std::fmt::Result { Ok(()) } }
 fn main() {}
